@@ -111,9 +111,10 @@ def UdfConformance(tier):
     if key not in seen:
       seen.add(key)
       uniq.append(b)
-  lines = c20udf.Replay(uniq, c20udf.TIER_INTERP[tier], rotate=(tier == 'quick'))
+  lines = c20udf.Replay(uniq, c20udf.TIER_INTERP[tier],
+                        per_behaviour=1 if tier == 'quick' else 2)
   res['t_replay'] = clock() - res['t_model']
-  shards = max(1, min(common.NCPU, len(lines) // 6500 + 1))
+  shards = max(1, min(common.NCPU, len(lines) // 3000 + 1))
   verdicts, counters, states, errors = c20udf.Judge(lines, 'c20udf',
                                                     shards=shards)
   res['t_judge'] = clock() - res['t_model'] - res['t_replay']
